@@ -230,6 +230,10 @@ def run(P, rep, tier):
     rep.rule('R02.7', 'floating rank in the usual arithmetic conversions: long double > double > float > any integer type, on either side; operators on mixed operands are typed accordingly', floor=100)
     r_common_type(P, rep, 'R02.7', 'fp')
     r_add_type(P, rep, 'R02.7', 'fp')
+    # `_Atomic float f; f op= B` (and an integer atomic with a floating operand): the operation happens in the common type only if the
+    # rewrite keeps B at its own type
+    from .c16 import r_atomic_operand_type
+    r_atomic_operand_type(P, rep, 'R02.7')
     r022(cg, rep)
     r024(cg, rep)
     r025_num(cg, rep)
